@@ -83,8 +83,12 @@ type Ledger struct {
 	wake     chan struct{} // closed and replaced on every clock change
 	// Stamp, if set, returns the next value of a counter shared with other observers, so that
 	// ledger events can be ordered against e.g. publications to the watcher.
-	Stamp func() int64
-	waits []WaitRecord
+	Stamp      func() int64
+	waits      []WaitRecord
+	deliveries []DeliveryRecord
+	hold       func(cause Call, e channel.AdjudicatorEvent) bool
+	held       []heldEvent
+	cause      Call // the call being executed (valid while l.mu is held by Register/Withdraw)
 	// Complaints are things a ledger call did that an honest client must never do
 	// (e.g. a register call with an invalid signature). The checks decide who made the call.
 	changed chan struct{}
@@ -209,6 +213,57 @@ func (l *Ledger) Now() int64 {
 type WaitRecord struct {
 	ID    channel.ID
 	Stamp int64
+	Tag   string // tag of the adjudicator handle the subscription was made through
+}
+
+// DeliveryRecord notes that Next handed an event to a subscriber.
+type DeliveryRecord struct {
+	ID         channel.ID
+	Stamp      int64
+	Tag        string
+	Registered bool   // a RegisteredEvent
+	Version    uint64 // its version
+}
+
+// Deliveries returns the record of events handed to subscribers.
+func (l *Ledger) Deliveries() []DeliveryRecord {
+	l.mu.Lock()
+	defer l.mu.Unlock()
+	return append([]DeliveryRecord(nil), l.deliveries...)
+}
+
+// SetHold installs a filter for newly emitted events: events for which it returns true are kept
+// back (as on a chain whose events arrive with block latency) until ReleaseHeld; nil removes it.
+// cause is the call that produced the event.
+func (l *Ledger) SetHold(f func(cause Call, e channel.AdjudicatorEvent) bool) {
+	l.mu.Lock()
+	l.hold = f
+	l.mu.Unlock()
+}
+
+// ReleaseHeld removes the hold filter and delivers the held events in their original order.
+func (l *Ledger) ReleaseHeld() int {
+	l.mu.Lock()
+	defer l.mu.Unlock()
+	l.hold = nil
+	n := len(l.held)
+	for _, h := range l.held {
+		l.deliver(h.id, h.e)
+	}
+	l.held = nil
+	return n
+}
+
+// Held returns the number of events kept back.
+func (l *Ledger) Held() int {
+	l.mu.Lock()
+	defer l.mu.Unlock()
+	return len(l.held)
+}
+
+type heldEvent struct {
+	id channel.ID
+	e  channel.AdjudicatorEvent
 }
 
 // Waits returns the record of subscribers going back to waiting.
@@ -368,6 +423,7 @@ func (l *Ledger) RunClock(stop <-chan struct{}, extraIdle func() bool) {
 type Subscription struct {
 	l      *Ledger
 	id     channel.ID
+	tag    string
 	queue  []channel.AdjudicatorEvent
 	inNext bool
 	closed bool
@@ -375,10 +431,19 @@ type Subscription struct {
 }
 
 // Subscribe implements channel.EventSubscriber: a new subscriber first gets the latest event.
-func (l *Ledger) Subscribe(_ context.Context, id channel.ID) (channel.AdjudicatorSubscription, error) {
+func (l *Ledger) Subscribe(ctx context.Context, id channel.ID) (channel.AdjudicatorSubscription, error) {
+	return l.subscribe(id, "")
+}
+
+// Subscribe implements channel.EventSubscriber; the subscription carries the handle's tag.
+func (a *Adjudicator) Subscribe(_ context.Context, id channel.ID) (channel.AdjudicatorSubscription, error) {
+	return a.Ledger.subscribe(id, a.Tag)
+}
+
+func (l *Ledger) subscribe(id channel.ID, tag string) (channel.AdjudicatorSubscription, error) {
 	l.mu.Lock()
 	defer l.mu.Unlock()
-	s := &Subscription{l: l, id: id, sig: make(chan struct{}, 1)}
+	s := &Subscription{l: l, id: id, tag: tag, sig: make(chan struct{}, 1)}
 	if e, ok := l.latest[id]; ok {
 		s.queue = append(s.queue, e)
 	}
@@ -395,6 +460,11 @@ func (s *Subscription) Next() channel.AdjudicatorEvent {
 			e := s.queue[0]
 			s.queue = s.queue[1:]
 			s.inNext = false
+			d := DeliveryRecord{ID: s.id, Stamp: l.stamp(), Tag: s.tag}
+			if re, ok := e.(*channel.RegisteredEvent); ok {
+				d.Registered, d.Version = true, re.Version()
+			}
+			l.deliveries = append(l.deliveries, d)
 			l.mu.Unlock()
 			return e
 		}
@@ -404,7 +474,7 @@ func (s *Subscription) Next() channel.AdjudicatorEvent {
 			return nil
 		}
 		if !s.inNext {
-			l.waits = append(l.waits, WaitRecord{s.id, l.stamp()})
+			l.waits = append(l.waits, WaitRecord{s.id, l.stamp(), s.tag})
 		}
 		s.inNext = true
 		l.mu.Unlock()
@@ -439,6 +509,14 @@ func (s *Subscription) Close() error {
 }
 
 func (l *Ledger) emit(id channel.ID, e channel.AdjudicatorEvent) {
+	if l.hold != nil && l.hold(l.cause, e) {
+		l.held = append(l.held, heldEvent{id, e})
+		return
+	}
+	l.deliver(id, e)
+}
+
+func (l *Ledger) deliver(id channel.ID, e channel.AdjudicatorEvent) {
 	l.latest[id] = e
 	for _, s := range l.subs[id] {
 		s.queue = append(s.queue, e)
@@ -555,6 +633,13 @@ type Adjudicator struct {
 	*Ledger
 	acc       wallet.Address
 	adversary bool
+	// Tag marks the subscriptions made through this handle (e.g. "watcher:A").
+	Tag string
+}
+
+// Tagged returns a handle for the same account whose subscriptions carry tag.
+func (a *Adjudicator) Tagged(tag string) *Adjudicator {
+	return &Adjudicator{Ledger: a.Ledger, acc: a.acc, adversary: a.adversary, Tag: tag}
 }
 
 // NewAdjudicator returns an adjudicator paying out to acc.
@@ -607,6 +692,7 @@ func (a *Adjudicator) Register(_ context.Context, req channel.AdjudicatorReq, su
 			call.SubVers[s.State.ID] = s.State.Version
 		}
 	}
+	l.cause = call
 	err := l.register(req, subs)
 	if err != nil {
 		call.Err = err.Error()
@@ -750,6 +836,7 @@ func (a *Adjudicator) Withdraw(ctx context.Context, req channel.AdjudicatorReq, 
 			call.SubVers[id] = s.Version
 		}
 	}
+	l.cause = call
 	err := l.withdraw(a.acc, req, subStates)
 	if err != nil {
 		call.Err = err.Error()
